@@ -59,7 +59,8 @@ theorem add_step {c : Circuit} {D : List Def} {d : Def} (h : BInv c D) (hD : ∀
 /-- which definition a statement of the `add` passes makes -/
 inductive StmtFor : Stmt → Def → Prop
   | input (n : Name) : StmtFor (.input n) (n, "input", [])
-  | gate (n : Name) (t : String) (ins : List Name) : StmtFor (.gate n t ins) (n, t, ins)
+  | gate (n : Name) (t : String) (ins : List Name) :
+      StmtFor (.gate n t ins) (n, (parityGate t ins).1, (parityGate t ins).2)   -- repeated XOR operands cancel (K35)
   | dffNet (n : Name) : StmtFor (.dffNet n) (n, "buf", [])
 
 theorem build1_step {c : Circuit} {D : List Def} {d : Def} {s : Stmt} (h : BInv c D)
@@ -77,7 +78,8 @@ theorem build1_step {c : Circuit} {D : List Def} {d : Def} {s : Stmt} (h : BInv 
       · exact hnew h1
       · exact hin rfl d' h1 h2
   | gate n t ins =>
-    exact add_step h hD hnew ok { n := n, ty := t, fanin := ins, addConnected := true, allowRedef := true }
+    exact add_step h hD hnew ok
+      { n := n, ty := (parityGate t ins).1, fanin := (parityGate t ins).2, addConnected := true, allowRedef := true }
       rfl rfl rfl rfl rfl rfl (Or.inl rfl) (Or.inl rfl)
   | dffNet n =>
     exact add_step h hD hnew ok { n := n, ty := "buf", allowRedef := true } rfl rfl rfl rfl rfl rfl (Or.inr rfl)
